@@ -2622,3 +2622,37 @@ Qed.
 
 Lemma wf_wfm_final : forall subject manifest st, wf st -> wfm subject manifest st.
 Proof. intros subject manifest st H. now apply wf_wfm. Qed.
+
+(* the Delete theorems in every state of every history of the persistence layer *)
+Lemma reachable_delete_final : forall succ subject manifest,
+  acyclic succ -> subject_listed succ subject ->
+  forall kl ops, Forall (plain_alt subject manifest) ops ->
+  let st := mem (fold_left (fun p o => fst (pstep succ subject manifest cfg_fixed kl p o)) ops pinit) in
+  (forall x ord, autogc st = true -> In x (blobs st) -> reorders ord ->
+     exists st',
+       delete succ subject manifest cfg_fixed ord st x = (st', Ok) /\
+       (forall y, In y (blobs st') <-> In y (blobs st) /\ ~ Gone succ subject manifest st x y) /\
+       (forall y, In y (gnodes st') <-> In y (gnodes st) /\ ~ Gone succ subject manifest st x y) /\
+       (forall t n, In (RTag t, n) (idx st') <-> In (RTag t, n) (idx st) /\ n <> x) /\
+       (forall r, ~ In (r, x) (idx st'))) /\
+  (forall n t x ord, In (RTag t, n) (idx st) -> In n (blobs st) -> reorders ord -> x <> n ->
+     let st' := fst (delete succ subject manifest cfg_fixed ord st x) in
+     In n (blobs st') /\ In (RTag t, n) (idx st')) /\
+  (forall x o1 o2, autogc st = true -> In x (blobs st) -> reorders o1 -> reorders o2 ->
+     let a := fst (delete succ subject manifest cfg_fixed o1 st x) in
+     let b := fst (delete succ subject manifest cfg_fixed o2 st x) in
+     (forall y, In y (blobs a) <-> In y (blobs b)) /\ (forall y, In y (gnodes a) <-> In y (gnodes b)) /\
+     (forall t n, In (RTag t, n) (idx a) <-> In (RTag t, n) (idx b))).
+Proof.
+  intros succ subject manifest H1 H2 kl ops Hf st.
+  destruct (phistories2_final succ subject manifest H1 H2 kl ops Hf) as [Hw _]. fold st in Hw.
+  split; [|split].
+  - intros x ord Ha Hx Ho.
+    destruct (delete_exact_final succ subject manifest H1 H2 st x Hw Ha Hx ord Ho)
+      as (s1 & E1 & B1 & G1 & _ & _ & T1 & N1 & _).
+    exists s1. split; [exact E1|]. split; [exact B1|]. split; [exact G1|]. split; [exact T1|exact N1].
+  - intros n t x ord Ht Hn Ho Hne.
+    exact (proj1 (tagged_kept_final succ subject manifest H1 H2 st n t Hw Ht Hn) x ord Ho Hne).
+  - intros x o1 o2 Ha Hx Ho1 Ho2.
+    exact (proj1 (order_independent_final succ subject manifest H1 H2) st x Hw Ha Hx o1 o2 Ho1 Ho2).
+Qed.
